@@ -385,11 +385,12 @@ class C20(Prop):
             if fl in ('rf', 'rc') and not finished and k > 0 and all(x.split(':')[0] in ('ok', 'err', 'X') for x in d['s']):
                 return f"results_in_submission_order: {at}: every task is finished {d['s']} but the helper has not returned"
             if fl in ('rf', 'rc'):
-                # raise_is_first: the helper raises as soon as the first exception occurs, and raises that one
-                if ferr is not None and h != f'exc:{ferr}':
-                    return f'raise_is_first: {at}: first exception in schedule order is {ferr} but the helper state is {h}'
-                if ferr is None and h.startswith('exc:'):
-                    return f'raise_is_first: {at}: the helper raised {h} although no task has failed'
+                # raise_is_first: whenever the helper has raised, it raised the first exception in schedule order; it never returns
+                # a list once a task has failed (how soon it raises is not part of the contract)
+                if h.startswith('exc:') and h != f'exc:{ferr}':
+                    return f'raise_is_first: {at}: the helper raised {h}; the first exception in schedule order is {ferr}'
+                if h.startswith('ret:') and ferr is not None:
+                    return f'raise_is_first: {at}: the helper returned {h} although a task raised {ferr}'
             if fl == 'on' and finished:
                 want = f'exc:{ferr}' if ferr is not None else None
                 if want is not None and h != want:
@@ -448,10 +449,14 @@ class C20(Prop):
         return msg.split(':', 1)[0] if msg else None
 
     def _fails_tag(self, c, tag):
-        try:
-            return self._tag(self.oracle(c, self.impl(c))) == tag
-        except Exception:
-            return False
+        key = json.dumps(c, sort_keys=True)
+        memo = self.__dict__.setdefault('_tag_memo', {})
+        if key not in memo:
+            try:
+                memo[key] = self._tag(self.oracle(c, self.impl(c)))
+            except Exception:
+                memo[key] = None
+        return memo[key] == tag
 
     def _minimise(self, c, tag):
         """deterministic greedy reduction to a canonical smallest case failing the same clause of the property"""
@@ -485,6 +490,12 @@ class C20(Prop):
                 if attempt(dict(cur, outs=cur['outs'][:i] + cur['outs'][i + 1:], ops=ops)):
                     changed = True
                     break
+            if cur['n'] > 1:      # compound move: one permit less and one task less
+                for i in reversed(range(len(cur['outs']))):
+                    ops = [[o[0], o[1] - 1] if (o[0] == 'f' and o[1] > i) else o for o in cur['ops'] if not (o[0] == 'f' and o[1] == i)]
+                    if attempt(dict(cur, n=cur['n'] - 1, outs=cur['outs'][:i] + cur['outs'][i + 1:], ops=ops)):
+                        changed = True
+                        break
             for i in range(len(cur['outs'])):
                 for new in (['r', 0], [cur['outs'][i][0], 0]):
                     if cur['outs'][i] != new and attempt(dict(cur, outs=cur['outs'][:i] + [new] + cur['outs'][i + 1:])):
